@@ -54,3 +54,30 @@ def run(ctx):
         rm = wd.call_sites('table::ValueTable::write_remove_plan')
         for s in rm:
             lib.result_guards(ctx, '2e remove-only-when-count-reaches-zero', wd, cr, s, 'write_dec_ref removes the value only depending on the result of change_ref (count reached zero)')
+
+    # 3. "all in commit order": every accepted operation is appended to the commit's change list, and the list is only ever appended to
+    VEC_MUT = re.compile(r'(Vec<.*>|Vec::<.*>|slice::<impl \[T\]>|\[T\]>?)::(pop|remove|swap_remove|truncate|clear|retain|retain_mut|dedup|dedup_by|dedup_by_key|drain|insert|sort_unstable|sort_unstable_by|sort_unstable_by_key|sort_by|sort_by_key|sort_by_cached_key|sort|reverse|swap|rotate_left|rotate_right|split_off|append|extend|extend_from_slice|resize|fill|iter_mut|last_mut|first_mut|get_mut|as_mut_slice|splice|extract_if|select_nth_unstable)$|^std::mem::(take|replace|swap)$')
+    STABLE_SORT_OK = {'btree::commit_overlay::BTreeChangeSet::write_plan': r'slice::<impl \[T\]>::sort$'}   # stable sort by key keeps the commit order of operations on one key
+    for cs, pushfn in (('.IndexedChangeSet.changes', 'db::IndexedChangeSet::push'), ('.BTreeChangeSet.changes', 'btree::commit_overlay::BTreeChangeSet::push')):
+        bad = []
+        npush = 0
+        for b in F.bodies.values():
+            for bi, t in b.calls():
+                nm = t.get('r') or t.get('f') or ''
+                if not t['a'] or op_place(t['a'][0]) is None:
+                    continue
+                if re.search(r'Vec.*::push$', nm) and cs in lib.receiver_fields(b, t, 0):
+                    npush += 1
+                    continue
+                if VEC_MUT.search(nm) and cs in lib.receiver_fields(b, t, 0):
+                    if b.path in STABLE_SORT_OK and re.search(STABLE_SORT_OK[b.path], nm):
+                        continue
+                    bad.append('%s in %s at %s' % (nm, b.path, b.loc(bi)))
+        ctx.ob('3a change-list-append-only %s' % cs, 'K4-confinement', cs,
+               'the list of operations of a commit is only appended to (no pop/remove/truncate/reorder anywhere in the crate; the btree write plan may stable-sort it by key): operations are applied in commit order, none is cancelled', not bad and npush >= 1, '; '.join(bad) or 'pushes: %d' % npush)
+        pb = ctx.body(pushfn)
+        if pb:
+            sites = lib.must_sites(pb, ['re:Vec.*::push$'])
+            sites = [x for x in sites if True]
+            lib.must_pass(ctx, '3b every-accepted-operation-is-recorded %s' % pushfn, pb, sites,
+                          'every success return of the change-set push has appended the operation (no operation is accepted and dropped)')
